@@ -2,7 +2,7 @@ import RedunModel.Proto
 import RedunModel.Model.ValueHash
 open RedunModel RedunModel.ValueHash
 
-/- value ::= N | T | F | i<int> | f<16 hex digits: binary64 bits> | s<hex utf-8> | b<hex> | (L v*) | (U v*) | (D (k v)*) | (S v*) | (FS v*) | (O <cls> v*)
+/- value ::= N | T | F | i<int> | f<16 hex digits: binary64 bits> | s<hex utf-8> | b<hex> | (L v*) | (U v*) | (D (k v)*) | (S v*) | (FS v*) | (O <cls> v*) | (X <cls> v)  instance of subclass <cls> of a builtin, v = builtin(value)
    (sets / frozensets list their elements in the iteration order observed in the process that hashed the value)
    request:  record v -> same reply format, for the hash `record_value` stores (`get_hash(data=serialize())`)
    request:  hash v   ->   V:<layout>          pre-image under tag "Value"
@@ -30,6 +30,7 @@ mutual
     | .list (.atom "S" :: items) => (toVs items).map .set
     | .list (.atom "FS" :: items) => (toVs items).map .fset
     | .list (.atom "O" :: .atom c :: items) => (toVs items).map (.obj c)
+    | .list [.atom "X", .atom c, b] => (toV b).map (.sub c)
     | .list (.atom "D" :: items) => do
       let kvs ← toKVs items
       pure (.dict (kvs.map Prod.fst) (kvs.map Prod.snd))
@@ -69,6 +70,7 @@ partial def render : V → String
   | .set xs => "(" ++ " ".intercalate ("S" :: xs.map render) ++ ")"
   | .fset xs => "(" ++ " ".intercalate ("FS" :: xs.map render) ++ ")"
   | .obj c xs => "(" ++ " ".intercalate ("O" :: c :: xs.map render) ++ ")"
+  | .sub c b => "(X " ++ c ++ " " ++ render b ++ ")"
   | .dict ks vs =>
     match zipExact ks vs with
     | some kvs => "(" ++ " ".intercalate ("D" :: kvs.map (fun kv => "(" ++ render kv.1 ++ " " ++ render kv.2 ++ ")")) ++ ")"
